@@ -26,6 +26,7 @@ import (
 	"github.com/distribution/reference"
 	godigest "github.com/opencontainers/go-digest"
 
+	"verif/harness/internal/c13"
 	"verif/harness/internal/core"
 	"verif/harness/internal/ld"
 	"verif/harness/internal/sched"
@@ -37,7 +38,7 @@ func init() {
 		Level: "exploration",
 		Rule: "part 1: seeded groups of 2..16 goroutines released from a barrier, each loading one of 10 input families (version:, extends in/across files, include with env_file, env/label files, secrets from the environment, multi-file override, interpolation, profiles, build/deploy) x {same input, all different, mixed} x GOMAXPROCS {1,2,4,16} x optional Gosched storm, in a -race build; every concurrent result is compared (YAML+JSON digest, or error class) with the same load done alone. " +
 			"part 2: WithServicesTransform and WithImagesResolved on projects with 0..6 services with every callback parked on the schedule controller: every release order for <=4 services (sampled above), failures injected at each position and at pairs; trace monitor: each callback exactly once, returned services == per-service results (unique payloads), first failing callback's error in release order, return only after every started callback returned, deadlock = global quiescence with nothing parked and no return. " +
-			"A case is non-trivial when >=2 goroutines/callbacks really ran; distinct = distinct (configuration, inputs / release order).",
+			"part 3: graph.InDependencyOrder on every labelled DAG on 2..3 services and ordered DAGs on 4, with concurrency limits 1..2 and 1..3 failing visitors, release orders enumerated depth-first plus seeded yield-point schedules (trace monitor of C13: no deadlock, first error, bound respected). A case is non-trivial when >=2 goroutines/callbacks really ran; distinct = distinct (configuration, inputs / release order).",
 		Assumptions: []string{
 			"each concurrent load gets its own ConfigDetails value and its own Environment map with equal content (sharing one mutable map between callers is not what the statement promises)",
 			"the race detector only sees races on executions that happened; reports are read from GORACE log files and de-duplicated by the pair of first compose-go frames",
@@ -596,6 +597,9 @@ func run(s *core.Shard) {
 			}
 		}
 	}
+
+	// ---- part 3: dependency-ordered traversal (deadlock freedom, first error) -----
+	c13.TraversalSlice(s, next)
 
 	// ---- part 1: concurrent loads ----------------------------------------------
 	rng := s.Rand("groups")
